@@ -164,9 +164,11 @@ func (w *World) modelPublish(mp, topic, payload string, retain bool, fromNode *N
 		if !s.Alive || w.mp(s) != mp || s.Node.Down {
 			continue
 		}
-		if !w.Cl.AutoGossip {
+		if !w.Cl.AutoGossip || w.Ambiguous {
 			// the publisher's node may or may not know this session's filters (and may still know
-			// filters it has dropped): a write to it, which re-arms the allowance, is possible
+			// filters it has dropped) — or it is not certain that this message is published at all
+			// (the ambiguous will of a displaced session): a write to the session, which re-arms
+			// its allowance, is possible but not certain
 			if m := w.Cl.Clock.Now() + 2*time.Duration(s.KeepAlive)*time.Second; m > s.DeadlineMax {
 				s.DeadlineMax = m
 			}
